@@ -4,8 +4,9 @@ Two specifications, one replayer (harness/src/bin/hostapi.rs):
 
 * spec/Nursery.tla  lent references as a state machine (guards, handles, stashes, derived references,
   borrow discipline).  Design level: the nursery mechanism with per-guard ownership satisfies
-  InvNoDangling / InvFaithful / InvChildLive / InvNoResidue in every state (MC_Nursery_fixed*), the
-  mechanism as coded ("shared_stack") violates each of them (MC_Nursery_asis_*).  Binding: every
+  InvNoDangling / InvFaithful / InvChildLive / InvNoResidue / InvNoInflight in every state
+  (MC_Nursery_fixed*), the mechanism as coded ("shared_stack", "no_wait") violates each of them
+  (MC_Nursery_asis_*).  Binding: every
   behaviour of the bounded machine is replayed on real engines; the oracle is the ideal semantics
   (a use succeeds iff the lending call is active and the borrow discipline allows it), `blame` in the
   tag is the model's prediction of what the as-is mechanism breaks.
@@ -22,7 +23,8 @@ import vlib
 PROP = "C20"
 BIN = "hostapi"
 ASIS = [("MC_Nursery_asis_dangling.cfg", "InvNoDangling"), ("MC_Nursery_asis_faithful.cfg", "InvFaithful"),
-        ("MC_Nursery_asis_childlive.cfg", "InvChildLive"), ("MC_Nursery_asis_residue.cfg", "InvNoResidue")]
+        ("MC_Nursery_asis_childlive.cfg", "InvChildLive"), ("MC_Nursery_asis_residue.cfg", "InvNoResidue"),
+        ("MC_Nursery_asis_inflight.cfg", "InvNoInflight")]
 
 
 def decode(o):
@@ -148,14 +150,15 @@ def run(tier, seed):
             case = {"id": f"nursery-design-{inv}", "tag": f"nursery-design|inv={inv}",
                     "steps": [{"src": f"TLC counterexample of {res.get('trace_len')} states, see {res['out']}"}],
                     "last_state": res.get("last_state", "")[:2000]}
-            r.fail_case(case, {"why": f"Invariant {inv} is violated by the shared-stack nursery"})
+            r.fail_case(case, {"why": f"Invariant {inv} is violated by the as-is nursery"})
         elif res["violation"]:
             raise vlib.ToolError(f"{cfg}: unexpected TLC error:\n{res['violation'][:2000]}")
         else:
             r.notes.append(f"{cfg}: the as-is model does not violate {inv} within its bounds")
 
     # ---- 2. lent references: behaviours of the bounded machine, replayed
-    runs = [("MC_Nursery_gen_quick.cfg", None, None), ("MC_Nursery_pair.cfg", None, None)]
+    runs = [("MC_Nursery_gen_quick.cfg", None, None), ("MC_Nursery_pair.cfg", None, None),
+            ("MC_Nursery_thread.cfg", None, None)]
     if not quick:
         runs += [("MC_Nursery_gen_full1.cfg", None, None), ("MC_Nursery_gen_acts2.cfg", None, 12000),
                  ("MC_Nursery_sim.cfg", "num=400", None)]
@@ -172,7 +175,7 @@ def run(tier, seed):
             if c["id"] not in seen:
                 seen.add(c["id"])
                 ncases.append(c)
-    nverd = vlib.replay(ncases, work, jobs=12, timeout_ms=3000, name="c20-nursery", binary=BIN)
+    nverd = vlib.replay(ncases, work, jobs=12, timeout_ms=6000, name="c20-nursery", binary=BIN)
     r.add_cases(ncases, nverd, nontrivial=nontrivial)
 
     # ---- 3. conversions.  Convert.tla has no Next: TLC evaluates everything (the initial states and the
